@@ -322,7 +322,7 @@ static void run_binptr() {
             vf::nontrivial(vf::hstr(key));
             std::string bytes; app(bytes, (ptrdiff_t)n); appv(bytes, ptr); appv(bytes, col); appv(bytes, val);
             bool mono = true; for (size_t k = 0; k + 1 < ptr.size(); ++k) mono &= ptr[k] <= ptr[k + 1];
-            bool must = vi == 0 && (n != 4 || !mono || ptr.back() > 9 || ptr[0] < 0);
+            bool must = vi == 0 && (n < 0 || n > 4 || !mono || ptr.back() > 9 || ptr[0] < 0);   // n < 4 is self-consistent from the reader's point of view
             if (must) vf::count("inconsistent_files_that_must_throw");
             long beg = vi ? 1 : -1, end = vi ? 3 : -1;
             b.add(key, [bytes, beg, end] { put_file(RUN->path("f"), bytes); return rd_bin_crs<ptrdiff_t, ptrdiff_t, ptrdiff_t, double>(RUN->path("f"), beg, end); },
